@@ -949,3 +949,46 @@ def cond_order_area(chk, db, prefixes, rule="CONDORDER"):
                           "reads the element one past the counted field (out of bounds for a full, unterminated field; not a constant "
                           "expression there)" % (astx.loc(f, node), astx.show(node, 70), astx.show(d, 20)), {"where": astx.loc(f)})
     return n
+
+
+# ---- FWDMOVE: a forwarding reference is forwarded, not moved -------------------------------------------------------------------
+def check_forward_move(f):
+    """`template <class U> f(U&& v)`: v binds to lvalues as well; `etl::move(v)` turns the caller's lvalue into an rvalue and
+    the callee steals from it (push_back(x) would empty x). Such a parameter is passed on with `etl::forward<U>(v)`.
+    returns None (no forwarding-reference parameter) | list of move(...) nodes applied to one"""
+    tps = [tp["n"] for tp in (f.get("tparams") or []) if tp.get("k") == "type" and not tp.get("pack")]
+    if not tps or f.get("body") is None:
+        return None
+    fw = [p["n"] for p in f["params"] if p.get("n") and re.match(r"^(%s)\s*&&$" % "|".join(map(re.escape, tps)), p["ty"].strip())]
+    if not fw:
+        return None
+    out = []
+    exprs = list(astx.all_exprs(f, into_lambdas=True))
+    for x in exprs:
+        if x.get("k") == "call" and astx.callee(x)[0] == "move" and len(x["a"]) == 1 and ref_name(x["a"][0]) in fw:
+            out.append(x)
+    return out
+
+
+# one named exception: forward_like<T>(x) exists to give x the value category of *another* type, it moves by design
+FWDMOVE_EXEMPT = {"etl::forward_like"}
+
+
+def forward_move_area(chk, db, prefixes, rule="FWDMOVE"):
+    n = 0
+    for f in db.funcs:
+        if f.get("body") is None or not any(f["file"].startswith(p) for p in prefixes) or f.get("q") in FWDMOVE_EXEMPT:
+            continue
+        r = check_forward_move(f)
+        if r is None:
+            continue
+        n += 1
+        construct = astx.sig(f)
+        chk.instance(rule)
+        chk.obligation(rule, construct, not r)
+        for node in r[:1]:
+            chk.violation(rule, construct, "forwarding-reference-moved",
+                          "%s: `%s` moves from a forwarding reference: when the caller passes an lvalue its object is moved from "
+                          "(std::vector::push_back(x) copies x); the parameter is to be passed on with etl::forward"
+                          % (astx.loc(f, node), astx.show(node, 40)), {"where": astx.loc(f)})
+    return n
